@@ -153,6 +153,36 @@ def sweep(ctx, n):
             k = int(np.argmax(np.abs(J - mesh.polarization).max(axis=1) + np.abs(B - mu_0 * H - mesh.polarization).max(axis=1)))
             fails.append({"key": "j-indicator:TriangularMesh", "desc": "J is not the polarization (or B != mu0*H + J) at an interior grid point of a box mesh",
                           "replay": {"dimension": np.asarray(cub.dimension).tolist(), "observer": obs[k].tolist(), "J": J[k].tolist(), "polarization": np.asarray(mesh.polarization).tolist()}})
+    # truthful in_out overrides (the property's quantifier): 'inside' for observers strictly inside the body, 'outside' for
+    # observers well outside must give the four fields of 'auto' — every magnet class (for four of them the keyword is dropped)
+    import warnings as _w
+    for i in range(max(6, n // 20)):
+        nps = np.random.default_rng(rng.randrange(2**31))
+        mcls = MAGNETS[i % len(MAGNETS)]
+        s = make(mcls, nps)
+        ip = interior_points(mcls, s, nps, 3)
+        if ip is None:
+            continue
+        ext = float(np.max(np.abs(np.asarray(s.vertices if getattr(s, "vertices", None) is not None else
+                                             (s.dimension[:3] if mcls != "Sphere" else [s.diameter])))))
+        far = nps.uniform(2, 5, (3, 3)) * ext * nps.choice([-1, 1], (3, 3))
+        for io, obs in (("inside", ip), ("outside", far)):
+            with _w.catch_warnings():
+                _w.simplefilter("ignore")
+                auto = [getattr(magpy, "get" + f)(s, obs) for f in "BHJM"]
+                forced = [getattr(magpy, "get" + f)(s, obs, in_out=io) for f in "BHJM"]
+            done += len(obs)
+            sc = max(float(np.max(np.abs(auto[0]))), float(np.max(np.abs(auto[2]))), 1e-300)
+            bad = [f for f, a, b in zip("BHJM", auto, forced) if not np.allclose(a, b, rtol=1e-9, atol=1e-12 * sc * (1 if f in "BJ" else 1 / mu_0), equal_nan=True)]
+            Bf, Hf, Jf, Mf = forced
+            if not bad and not (np.allclose(Bf, mu_0 * Hf + Jf, rtol=1e-9, atol=1e-9 * sc) and np.allclose(Jf, mu_0 * Mf, rtol=1e-12, atol=1e-300)):
+                bad = ["B-mu0*H-J"]
+            if bad:
+                fails.append({"key": f"in_out-truthful:{mcls}:{io}", "desc": f"truthful in_out='{io}' changes field(s) {bad} with respect to 'auto' (or breaks B = mu0*H + J)",
+                              "replay": {"class": mcls, "in_out": io, "observers": np.asarray(obs).tolist(),
+                                         "geometry": np.asarray(s.vertices if getattr(s, "vertices", None) is not None else (s.dimension if mcls != "Sphere" else s.diameter)).tolist(),
+                                         "polarization": np.asarray(s.polarization).tolist()}})
+                break
     # attribute relation under assignment histories
     attr_bad = None
     nps = np.random.default_rng(rng.randrange(2**31))
